@@ -185,6 +185,11 @@ func libFile() []byte {
 
 func specFile() []byte {
 	meta := fmtgen.Meta(rnd)
+	longMeta := rnd.Chance(15)
+	if longMeta {
+		meta = fmtgen.LongMeta(rnd)
+		out.Note("spec-long-metadata")
+	}
 	k := rnd.Intn(14)
 	if rnd.Chance(10) {
 		k = 40 + rnd.Intn(100)
@@ -203,8 +208,14 @@ func specFile() []byte {
 		cs[i] = fmtgen.KV{Name: n, Val: rnd.Uint64() >> uint(rnd.Intn(64))}
 	}
 	var p fmtgen.Policy
-	if rnd.Bool() {
+	if rnd.Bool() || longMeta {
 		p = fmtgen.RandPolicy(rnd)
+		if p.HdrExtra > 0 {
+			out.Note("spec-header-above-minimum")
+		}
+		if p.HdrJunk {
+			out.Note("spec-header-junk-after-nul")
+		}
 	}
 	return fmtgen.Encode(meta, cs, p, rnd)
 }
